@@ -3,3 +3,4 @@ import PintModel.Model.Registry
 import PintModel.Model.Load
 import PintModel.Gen.DefaultRegistry
 import PintModel.DriverOps
+import PintModel.Model.Quantity
